@@ -9,6 +9,7 @@ package traefikoidc
 import (
 	"fmt"
 	"strings"
+	"time"
 )
 
 func init() {
@@ -341,7 +342,10 @@ func vfGenC04(r *vfRand, id int) *vfWorldCase {
 	case 3:
 		spec.Pad = []int{30000, 32768, 33000, 48000, 70000}[r.intn(5)] // tens of kilobytes (compressible)
 	case 4:
-		spec.Extra = map[string]interface{}{"realm_access": map[string]interface{}{"roles": []interface{}{"a", "b"}}, "acr": "1", "amr": []interface{}{"pwd"}}
+		// standard OIDC claims this plugin does not read; auth_time (the user's authentication at the provider) is minutes,
+		// more than a day or more than a year old: a long-lived provider SSO session
+		spec.Extra = map[string]interface{}{"realm_access": map[string]interface{}{"roles": []interface{}{"a", "b"}}, "acr": "1", "amr": []interface{}{"pwd"},
+			"auth_time": time.Now().Unix() - []int64{300, 108000, 34560000}[id%3], "sid": "sid-" + fmt.Sprint(id)}
 	}
 	if r.chance(1, 4) { // group / role claims of every JSON shape providers emit (single string, null, objects ...)
 		spec.Groups = vfClaimShapes[r.intn(len(vfClaimShapes))]
@@ -1363,7 +1367,8 @@ func vfGenC17(r *vfRand, id int) *vfWorldCase {
 		nbad = 6 + r.intn(5)
 	}
 	for i := nbad; i > 0; i-- {
-		target := vfPick(r, "/app", "/", vfCallbackPath+"?state=x&code=y", vfLogoutPath, "/app?x="+strings.Repeat("u", []int{10, 1000, 1024, 1900, 2000, 2100, 3000, 8000, 16000}[r.intn(9)]))
+		target := vfPick(r, "/app", "/", vfCallbackPath+"?state=x&code=y", vfLogoutPath, "/app?x="+strings.Repeat("u", []int{10, 1000, 1024, 1900, 2000, 2100, 3000, 8000, 16000}[r.intn(9)]),
+			"/files/"+strings.Repeat("%7E", []int{100, 340, 400, 700, 900}[(id+i)%5])+vfPick(r, "", "?q=%2F%20"+strings.Repeat("%C3%A9", 200)))
 		acts = append(acts, vfReqAct(0, 0, vfPick(r, "GET", "POST"), target, 1, func(q *vfReq) {
 			q.AcceptJS = r.chance(1, 4)
 			if r.chance(1, 4) {
